@@ -14,6 +14,7 @@ import (
 	"fmt"
 	"sort"
 	"strings"
+	"time"
 
 	"github.com/google/uuid"
 	"github.com/nspcc-dev/neofs-node/pkg/network/peerauth"
@@ -29,6 +30,7 @@ import (
 	"github.com/nspcc-dev/neofs-sdk-go/proto/refs"
 	protosession "github.com/nspcc-dev/neofs-sdk-go/proto/session"
 	"github.com/nspcc-dev/neofs-sdk-go/session"
+	sessionv2 "github.com/nspcc-dev/neofs-sdk-go/session/v2"
 	"github.com/nspcc-dev/neofs-sdk-go/version"
 	grpccodes "google.golang.org/grpc/codes"
 	"google.golang.org/grpc/peer"
@@ -552,6 +554,83 @@ func (w *objWorld) bearerToken(n int, cnr int, rules []simRule, defect int, life
 	return m, defect == tokValid
 }
 
+func sessionVerbV2(op acl.Op) sessionv2.Verb {
+	switch op {
+	case acl.OpObjectGet:
+		return sessionv2.VerbObjectGet
+	case acl.OpObjectHead:
+		return sessionv2.VerbObjectHead
+	case acl.OpObjectPut:
+		return sessionv2.VerbObjectPut
+	case acl.OpObjectDelete:
+		return sessionv2.VerbObjectDelete
+	case acl.OpObjectSearch:
+		return sessionv2.VerbObjectSearch
+	case acl.OpObjectRange:
+		return sessionv2.VerbObjectRange
+	case acl.OpObjectHash:
+		return sessionv2.VerbObjectRangeHash
+	}
+	panic("unknown op")
+}
+
+// sessionTokenV2 builds a V2 session token issued by the container owner to `holder`; its
+// lifetime is in chain time (the node compares it with its chain time provider).
+func (w *objWorld) sessionTokenV2(n int, holder *actor, op acl.Op, cnr int, defect int, life uint64) (*protosession.SessionTokenV2, bool) {
+	now := aclChain{c: w.chain}.Now()
+	var t sessionv2.Token
+	t.SetVersion(sessionv2.TokenCurrentVersion)
+	t.SetIssuer(w.owner.id)
+	if err := t.SetSubjects([]sessionv2.Target{sessionv2.NewTargetUser(holder.id)}); err != nil {
+		panic(err)
+	}
+	t.SetIat(now.Add(-10 * time.Second))
+	t.SetNbf(now.Add(-10 * time.Second))
+	t.SetExp(now.Add(time.Duration(life)*240*time.Second + 100*time.Second))
+	verb := sessionVerbV2(op)
+	c := w.cnrIDs[cnr]
+	switch defect {
+	case tokExpired:
+		t.SetIat(now.Add(-1000 * time.Second))
+		t.SetNbf(now.Add(-1000 * time.Second))
+		t.SetExp(now.Add(-5 * time.Second))
+	case tokNotYet:
+		t.SetNbf(now.Add(100 * time.Second))
+		t.SetExp(now.Add(1000 * time.Second))
+	case tokWrongVerb:
+		if op == acl.OpObjectPut {
+			verb = sessionv2.VerbObjectGet
+		} else {
+			verb = sessionv2.VerbObjectPut
+		}
+	case tokWrongCnr:
+		c = w.cnrIDs[(cnr+1)%len(w.cnrIDs)]
+	}
+	ctx, err := sessionv2.NewContext(c, []sessionv2.Verb{verb})
+	if err != nil {
+		panic(err)
+	}
+	if err = t.SetContexts([]sessionv2.Context{ctx}); err != nil {
+		panic(err)
+	}
+	signer := w.owner.signer(0)
+	if defect == tokForeignSigner {
+		signer = keyWithID(w.alien, w.owner) // claims to be the owner, signs with another key
+	}
+	if err = t.Sign(signer); err != nil {
+		panic(err)
+	}
+	if defect == tokForeignSigner {
+		t.SetIssuer(w.owner.id)
+	}
+	m := t.ProtoMessage()
+	if defect == tokBadSig {
+		m.Signature.Sign = append([]byte(nil), m.Signature.Sign...)
+		m.Signature.Sign[n%len(m.Signature.Sign)] ^= 0x10
+	}
+	return m, defect == tokValid
+}
+
 // ---------------------------------------------------------------------------------------------
 // the run
 
@@ -563,7 +642,12 @@ var c29Basic = []struct {
 	{"private", acl.Private},
 	{"eacl-public-ro", acl.PublicROExtended},
 	{"eacl-public-rw/server-outside", acl.PublicRWExtended},
+	{"eacl-public-append", acl.PublicAppendExtended}, // others may write but not delete
 }
+
+// c29Members: which nodes carry each container's attribute (node 0 = the server).
+var c29Members = map[int][]bool{0: {true, true, false, false, false}, 1: {true, true, false, false, false},
+	2: {true, true, false, false, false}, 3: {false, true, true, false, false}, 4: {true, true, false, false, false}}
 
 const c29OutsideCnr = 3 // the local node is not in this container: the server is a proxy
 
@@ -576,10 +660,8 @@ func runC29(r *simkit.R) {
 	w := newObjWorld(r, worldCfg{epoch: uint64(10 + r.Intn(4)), withEngine: !r.Bool(20)})
 	e0 := w.epoch()
 	online := []bool{true, true, true, true, true}
-	mem := map[int][]bool{0: {true, true, false, false, false}, 1: {true, true, false, false, false},
-		2: {true, true, false, false, false}, 3: {false, true, true, false, false}}
 	for e := e0 - 2; e <= e0+14; e++ {
-		w.chain.setEpochMembership(e, online, mem)
+		w.chain.setEpochMembership(e, online, c29Members)
 	}
 	for i, b := range c29Basic {
 		w.addContainer(i, b.basic)
@@ -600,11 +682,28 @@ func runC29(r *simkit.R) {
 			w.seedObject(so)
 		}
 	}
+	// late objects: stored nowhere yet; a replica may land in the local engine between the
+	// server's access checks and the read (the header is then unknown at request time, local at read time)
+	lateObjs := map[int]*simObject{}
+	if withEngine {
+		for ci := range c29Basic {
+			if ci == c29OutsideCnr {
+				continue
+			}
+			secret := !r.Bool(40)
+			tag := "public"
+			if secret {
+				tag = secretVal
+			}
+			pl := []byte(fmt.Sprintf("late-payload-of-cnr%d-%s-%08x", ci, tag, w.seed))
+			lateObjs[ci] = &simObject{obj: w.newObject(ci, w.owner.signer(0), pl, [2]string{secretAttr, tag}, [2]string{"Late", "1"}), cnr: ci, secret: secret, late: true}
+		}
+	}
 	w.blobOn = true
 
 	// eACL tables of the extendable containers
 	rules := map[int][]simRule{}
-	for _, ci := range []int{0, 2, 3} {
+	for _, ci := range []int{0, 2, 3, 4} {
 		var rs []simRule
 		if r.Bool(35) {
 			rs = append(rs, simRule{deny: true, ops: allClientOps(), kind: ruleXHeader})
@@ -658,10 +757,45 @@ func runC29(r *simkit.R) {
 			w.setEpoch(w.epoch() + d)
 			r.Logf("epoch -> %d", w.epoch())
 		}
-		info := clientRPCs[r.Intn(len(clientRPCs))]
+		weights := make([]int, len(clientRPCs))
+		for i, ci := range clientRPCs {
+			weights[i] = 4
+			if !specOf(ci.name).supported {
+				weights[i] = 1 // answered Unimplemented whatever the request is: cheap, uninteresting
+			}
+		}
+		info := clientRPCs[r.Weighted(weights...)]
 		spec := specOf(info.name)
 		sh := &reqShape{rpc: info.name, cnr: r.Intn(len(c29Basic)), ver: version.Current()}
-		if spec.addressed {
+		// directed scenario: a plain, correctly signed GET/HEAD by "others" of the secret object of a
+		// container whose eACL has an object-header rule (the decision needs the header)
+		directed := false
+		if r.Bool(12) {
+			var cand []int
+			for _, ci := range []int{0, 2} {
+				for _, ru := range rules[ci] {
+					if ru.kind == ruleObjAttr || ru.kind == ruleObjID {
+						cand = append(cand, ci)
+						break
+					}
+				}
+			}
+			if len(cand) > 0 {
+				directed = true
+				sh.cnr = cand[r.Intn(len(cand))]
+				info = w.rpc([]string{"Get", "Head"}[r.Intn(2)])
+				spec = specOf(info.name)
+				sh.rpc = info.name
+			}
+		}
+		arriving := false // the addressed late object lands locally while this request is being served
+		isRead := info.name == "Get" || info.name == "Head" || info.name == "GetRange"
+		if directed {
+			sh.obj = w.objs[2*sh.cnr+1]
+			if lo := lateObjs[sh.cnr]; lo != nil && lo.late && lo.secret && r.Bool(50) {
+				sh.obj, arriving = lo, true
+			}
+		} else if spec.addressed {
 			switch r.Weighted(6, 6, 1) {
 			case 0:
 				sh.obj = w.objs[2*sh.cnr]
@@ -670,9 +804,15 @@ func runC29(r *simkit.R) {
 			default:
 				sh.ghost = true
 			}
+			if lo := lateObjs[sh.cnr]; lo != nil && isRead && r.Bool(18) {
+				sh.obj, sh.ghost = lo, false
+				arriving = lo.late && !r.Bool(20)
+			}
 		}
+		lateMissing := sh.obj != nil && sh.obj.late && !arriving // addressed object exists nowhere (yet)
+		effLocal := sh.obj != nil && (sh.obj.local || arriving)
 		sh.ttl = uint32(2 - r.Intn(2))
-		if sh.obj != nil && !sh.obj.local && r.Bool(80) {
+		if sh.obj != nil && !effLocal && r.Bool(80) {
 			sh.ttl = 2 // a remote object can only be served with TTL > 1
 		}
 		sh.xdeny = r.Bool(20)
@@ -683,11 +823,15 @@ func runC29(r *simkit.R) {
 		// sender and auth mode
 		senderIdx := r.Weighted(5, 3, 2) // other, owner, container node 1
 		sender := []*actor{w.other, w.owner, w.nodes[1]}[senderIdx]
-		authMode := r.Weighted(6, 2, 2) // plain, session, bearer
+		authMode := r.Weighted(6, 2, 2, 2) // plain, session V1, bearer, session V2
 		defect := sigValid
 		tokDefect := tokNone
 		if r.Bool(45) {
 			defect = 1 + r.Intn(sigCount-1)
+		}
+		if directed {
+			senderIdx, sender, authMode, defect = 0, w.other, 0, sigValid
+			sh.xdeny = false
 		}
 		if authMode != 0 {
 			tokDefect = tokValid
@@ -697,7 +841,11 @@ func runC29(r *simkit.R) {
 			if tokDefect == tokWrongObj && authMode == 1 && !spec.addressed && info.name != "Put" {
 				tokDefect = tokValid // a request that names no object cannot be outside the token's object list
 			}
+			if tokDefect == tokWrongObj && authMode == 3 {
+				tokDefect = tokValid // V2 session tokens have no object list
+			}
 		}
+		session := authMode == 1 || authMode == 3
 		if defect == sigStripLayer || defect == sigDupLayer {
 			sh.ver = version.New(2, 18)
 			sh.ttl = 2
@@ -711,7 +859,7 @@ func runC29(r *simkit.R) {
 				tag = secretVal
 			}
 			objOwner := sender
-			if authMode == 1 {
+			if session {
 				objOwner = w.owner
 			}
 			pl := []byte(fmt.Sprintf("put-%d-%08x", step, w.seed))
@@ -763,6 +911,12 @@ func runC29(r *simkit.R) {
 			m, tokenValid = w.bearerToken(step, sh.cnr, bearerRules, d, life, forUser)
 			mh.BearerToken = m
 			bearerUsed = true
+		case 3: // V2 session token of the owner for the sender
+			if sender == w.owner {
+				sender = w.other
+				senderIdx = 0
+			}
+			mh.SessionTokenV2, tokenValid = w.sessionTokenV2(step, sender, spec.op, sh.cnr, tokDefect, life)
 		}
 
 		// ---- the model's verdict --------------------------------------------------------
@@ -771,7 +925,7 @@ func runC29(r *simkit.R) {
 		basic := c29Basic[sh.cnr].basic
 		role := acl.RoleOthers
 		switch {
-		case authMode == 1: // session: the request acts as the token issuer (the owner)
+		case session: // session: the request acts as the token issuer (the owner)
 			role = acl.RoleOwner
 		case sender == w.owner:
 			role = acl.RoleOwner
@@ -810,24 +964,24 @@ func runC29(r *simkit.R) {
 			switch {
 			case !spec.supported:
 				exp, why = expAny, "unsupported-rpc"
-			case sh.ghost:
+			case sh.ghost || lateMissing:
 				exp, why = expAny, "no-such-object"
-			case sh.obj != nil && !sh.obj.local && sh.ttl == 1:
+			case sh.obj != nil && !effLocal && sh.ttl == 1:
 				exp, why = expAny, "remote-object-ttl1"
-			case sh.obj != nil && !sh.obj.local && authMode == 1:
+			case sh.obj != nil && !effLocal && session:
 				exp, why = expAny, "remote-object-session" // the node has no private session key to act on behalf
 			case sh.cnr == c29OutsideCnr && sh.ttl == 1:
 				exp, why = expAny, "proxy-ttl1"
 			}
 		}
-		if exp == expHeader && sh.ghost {
+		if exp == expHeader && (sh.ghost || lateMissing) {
 			exp, why = expAny, "no-such-object"
 		}
-		if authMode == 1 && tokDefect == tokWrongObj && info.name == "Delete" && defect == sigValid {
-			// acl/v2 deliberately skips the object-list check for DELETE-verb tokens (the tombstone's
-			// ID cannot be predicted); whether that is right for an addressed Delete is C30's subject
-			exp, why = expAny, "delete-token-object-list"
+		if exp == expHeader && arriving {
+			why = "eacl-on-header/late-local"
 		}
+		// (a DELETE-verb token limited to other objects is invalid for an addressed Delete as well: only
+		// the upload of a tombstone, whose ID the issuer cannot know, is exempt from the object list)
 
 		// ---- build, sign, send ------------------------------------------------------------
 		req := w.buildRequest(sh, mh)
@@ -861,19 +1015,28 @@ func runC29(r *simkit.R) {
 
 		target := "-"
 		if sh.obj != nil {
-			target = map[bool]string{true: "local", false: "remote"}[sh.obj.local] + map[bool]string{true: "/secret", false: "/public"}[sh.obj.secret]
+			target = map[bool]string{true: "local", false: "remote"}[sh.obj.local]
+			if sh.obj.late {
+				target = "late(arriving=" + fmt.Sprint(arriving) + ")"
+			}
+			target += map[bool]string{true: "/secret", false: "/public"}[sh.obj.secret]
 		} else if sh.ghost {
 			target = "ghost"
 		} else if sh.newObj != nil {
 			target = "new" + map[bool]string{true: "/secret", false: "/public"}[sh.newSecret]
 		}
 		r.Op("%s cnr%d obj=%s ttl=%d v=%s sender=%s auth=%s/%s sig=%s xdeny=%v rng=%d/%v trusted=%v expect=%s(%s)",
-			info.name, sh.cnr, target, sh.ttl, sh.ver.String(), sender.name, [...]string{"plain", "session", "bearer"}[authMode], tokNames[tokDefect],
+			info.name, sh.cnr, target, sh.ttl, sh.ver.String(), sender.name, [...]string{"plain", "session", "bearer", "session-v2"}[authMode], tokNames[tokDefect],
 			sigNames[defect], sh.xdeny, sh.rngMode, sh.pldOnly, trusted, exp, why)
 
+		if arriving {
+			so := sh.obj
+			w.handlers.onRead = func() { w.arriveLocally(so); r.Probe("late-object-arrived-between-checks-and-read") }
+		}
 		mark := w.rec.mark()
 		storedBefore := w.objStore.count()
 		out := callRPC(ctx, info, req)
+		w.handlers.onRead = nil
 		effs := w.rec.since(mark)
 		data := dataEffects(effs)
 		r.Logf("  -> %s %s effects: %s", out, codeName(out.code), compact(effs))
@@ -927,6 +1090,7 @@ func runC29(r *simkit.R) {
 				r.Failf("refused-good-request", sig, "%s: permitted, servable request was refused: %s %q; effects: %s", info.name, out, out.msg, compact(effs))
 			}
 			c29CheckServed(r, w, info, sh, out, data, storedBefore)
+			r.Probe("served/" + info.name)
 			servedOK++
 		case expAny:
 			r.Probe("no-expectation/" + why)
@@ -964,7 +1128,9 @@ func c29CheckServed(r *simkit.R, w *objWorld, info rpcInfo, sh *reqShape, out rp
 			want = want[1:4]
 		}
 		if !bytes.Equal(out.payload, want) {
-			r.Failf("wrong-data", sig, "Get returned payload %q, want %q", out.payload, want)
+			signed := sh.ver.Major() == 2 && sh.ver.Minor() <= 17 // the node signs responses for old clients
+			r.Failf("wrong-data", fmt.Sprintf("Get/payload range=%v signed-response=%v with-header=%v local=%v", sh.rngMode != 0, signed, !sh.pldOnly, sh.obj.local),
+				"Get (range mode %d, payload-only %v, API %s, object local=%v) returned payload %q, want %q", sh.rngMode, sh.pldOnly, sh.ver.String(), sh.obj.local, out.payload, want)
 		}
 		if !sh.pldOnly && out.hdrMsgs != 1 {
 			r.Failf("wrong-data", sig, "Get returned %d header messages", out.hdrMsgs)
